@@ -6,6 +6,11 @@ VERIF = os.path.dirname(os.path.dirname(os.path.abspath(__file__)))
 
 # id -> (category, technique, level text, level note, design ref)
 CHECKS = {
+    "C14": ("model_checking",
+            "TLA+ spec OpDispatch.tla (data-model dispatch protocol for user classes; builtin outcome tables probed from CPython) enumerated by TLC; every statement executed under CPython (oracle clause) and analysed by the real pytype; TLC (TraceC14.tla) judges false positives and advertised misses",
+            "TLC enumerates the whole statement grammar (binary + - * / over 14 builtin operand kinds, + with 15 generated user classes covering forward/reflected/declining/subclass-first/same-type cases, unary minus, subscript, attribute read, method call, call: 1816 statements) and predicts each outcome; CPython must agree with every prediction; pytype's per-line flags are judged both ways by TLC.",
+            "Trusted: TLC, statement renderer, the probed builtin tables (data). Literal operands are fixed representatives of their class.",
+            "DESIGN.md section 6, C14"),
     "C02": ("model_checking",
             "TLA+ grammars of annotations and ground values (AnnGrammar.tla) with the membership oracle Admits (PytdTypes.tla) checked by TLC; value terms confirmed by CPython; every (annotation, value, site) rendered into a module analysed by the real pytype; TLC (TraceC02.tla) judges err <=> ~Admits and attributes disagreements to documented deviations",
             "TLC enumerates the depth-2 annotation grammar (236 annotations) and 91 ground values and checks the oracle's laws; for each annotation one module puts every value at the argument, return and annotated-assignment sites; the reported errors are judged by TLC against Admits. Disagreements are attributed to a known finding only when exactly one documented matcher deviation, modelled in the spec, explains them.",
@@ -31,7 +36,7 @@ CHECKS = {
 NOT_APPLICABLE = {}
 
 PENDING = ["C01", "C03", "C04", "C05", "C06", "C10", "C11", "C12", "C13",
-           "C14", "C15", "C16", "C17", "C18", "C19", "C20"]
+           "C15", "C16", "C17", "C18", "C19", "C20"]
 
 
 def main():
